@@ -276,7 +276,7 @@ class DataPoint(dict):
             if 'phi' in self:
                 self.phi = math.pi - self.phi
             elif 'FTn' in self:
-                if self.FTn == 1 or self.FTn == 3:
+                if self.FTn == 1 or self.FTn == 3 or self.FTn == -2:
                     self.val = - self.val
         # C3. varphi_{Trento} -> (varphi_{BKM} + pi)
             if 'varphi' in self:
